@@ -36,6 +36,7 @@ def run(chk):
     r2(chk)
     r3(chk)
     r4(chk)
+    r5(chk)
 
 
 def _guard_of(node, fn):
@@ -320,3 +321,52 @@ def r4(chk):
     chk.ob("C04.R4", where, "empty-only-when-impossible", ok and ok2,
            "the empty list is returned only under the audit-not-possible flag; otherwise the assembled list of assertions is returned",
            node=empties[0] if empties else fn, strength="N", returns=[norm(r.value) for r in rets])
+
+
+def r5(chk):
+    """De-duplication compares like with like.  The harvest loop calls `a.same_as(b)` / `a.subsumes(b)` on frontier assertions of
+    either kind, so (i) an attribute read from `other` must be defined for every class that can be passed, or be protected by a
+    type test on `other`; (ii) `same_as` must require the same class (an NEB and an NEN assertion with equal winner and loser
+    are different assertions: merging them drops one from the audit)."""
+    idx = chk.idx
+    base = chk.fn(RU, "RaireAssertion.__init__")
+    base_attrs = {t.attr for t, v, s in stores(base) if isinstance(t, ast.Attribute) and norm(t.value) == "self"}
+    n = 0
+    for cls in ("NEBAssertion", "NENAssertion"):
+        for meth in ("same_as", "subsumes"):
+            q = f"{cls}.{meth}"
+            if not idx.has_func(RU, q):
+                continue
+            fn = chk.fn(RU, q)
+            other = [a.arg for a in fn.args.args][1]
+            # type tests on `other`
+            tests = [norm(c) for c in ast.walk(fn) if isinstance(c, (ast.Compare, ast.Call)) and
+                     (norm(c).startswith(f"type({other})") or norm(c).startswith(f"isinstance({other},"))]
+            same_class = any(t in (f"type({other})=={cls}", f"type({other})==type(self)", f"isinstance({other},{cls})", f"type({other})is{cls}") for t in tests)
+            # an early `if type(other) == <the sibling>: return False` also pins the class in a two-class hierarchy
+            sibling = "NENAssertion" if cls == "NEBAssertion" else "NEBAssertion"
+            early = False
+            for st in fn.body:
+                if isinstance(st, ast.If) and norm(st.test) in (f"type({other})=={sibling}", f"isinstance({other},{sibling})") \
+                        and len(st.body) == 1 and isinstance(st.body[0], ast.Return) and norm(st.body[0].value) == "False":
+                    early = True
+            foreign = sorted({x.attr for x in ast.walk(fn) if isinstance(x, ast.Attribute) and norm(x.value) == other and x.attr not in base_attrs})
+            # the guard must come first: in a conjunction the type test has to be the first operand
+            first_ok = True
+            if meth == "same_as":
+                rets = [r for r in walk_local(fn) if isinstance(r, ast.Return)]
+                first_ok = len(rets) == 1 and isinstance(rets[0].value, ast.BoolOp) and isinstance(rets[0].value.op, ast.And) \
+                    and norm(rets[0].value.values[0]) in (f"type({other})=={cls}", f"type({other})==type(self)", f"isinstance({other},{cls})", f"type({other})is{cls}")
+                if early:
+                    first_ok = True
+            n += 1
+            ok_attr = not foreign or ((same_class and first_ok) or early)
+            chk.ob("C04.R5", f"{RU}:{q}", "sibling-attributes-guarded", ok_attr,
+                   "attributes read from the other assertion are defined for every assertion class, or the read is preceded by a test of the "
+                   "other assertion's class (otherwise de-duplicating a mixed frontier raises AttributeError)", node=fn, strength="N",
+                   subclass_only_attributes=foreign, type_tests=tests)
+            if meth == "same_as":
+                chk.ob("C04.R5", f"{RU}:{q}", "same-kind-only", (same_class and first_ok) or early,
+                       "two assertions are the same only if they are of the same kind (first operand of the conjunction is the class test)",
+                       node=fn, strength="N", type_tests=tests)
+    chk.need("C04.R5", n, 4, "same_as / subsumes implementations")
